@@ -59,6 +59,29 @@ fn judge_entry_points(prop: &str, nb: &TimeSpec, na: &TimeSpec, ctxs: &[Ctx]) ->
             }
         }
     }
+    // ... nor on having been through a certificate before: the parameters a certificate reports (params()) say the same
+    // instants and issue the same Validity again
+    if let Some(f0) = &first {
+        if let (Ok(p), SubjectSrc::Pair(kp)) = (crate::glue::to_params(&st), &ctxs[0].subject) {
+            if ctxs[0].issuer.is_none() {
+                let r = guarded(|| {
+                    let c1 = p.self_signed(kp)?;
+                    let c2 = c1.params().clone().self_signed(kp)?;
+                    let c3 = c2.params().clone().self_signed(kp)?;
+                    Ok::<_, rcgen::Error>((c2.der().to_vec(), c3.der().to_vec()))
+                });
+                if let Ok(Ok((d2, d3))) = r {
+                    out.transitions += 3;
+                    for (which, d) in [("second", d2), ("third", d3)] {
+                        let v = refmodel::x509::decode_cert(&d).value.map(|a| format!("{:?} {:?}", a.not_before, a.not_after).into_bytes());
+                        if v.as_ref() != Some(f0) {
+                            out.findings.push(Finding::new("TIME-ENTRY-POINT-DEPENDENT", "validity", format!("the {} certificate issued from Certificate::params() of the previous one has another Validity", which)));
+                        }
+                    }
+                }
+            }
+        }
+    }
     out.findings.dedup_by(|a, b| a.sig() == b.sig());
     out
 }
